@@ -59,4 +59,40 @@ def solutionB (P : Program) (d : DagRef) (val : Node → Option Val) : Bool :=
 def plainAttrsB (P : Program) : Bool :=
   P.g.nodes.all fun n => !P.g.isSwitch n && !P.g.isOneofHead n && ((P.g.attr n).startNode.isNone)
 
+/-- the label the decision node(s) of switch `S` return, in the valuation `val` -/
+def switchLabelV (P : Program) (val : Node → Option Val) (S : Node) : Option Val :=
+  ((P.g.edges.filter (fun e => e.v == S)).filter (·.isSwitch)).foldl (fun _ e => val e.u) (some .none)
+
+/-- the case node the switch selects -/
+def swSel (P : Program) (val : Node → Option Val) (S : Node) : Option Node :=
+  match switchLabelV P val S with
+  | some (.str l) => (((switchCases P S).filter (·.1 == l)).getLast?).map (·.2)
+  | _ => none
+
+/-- Boolean form of `SolutionSw` on the nodes of the graph -/
+def solutionSwB (P : Program) (val : Node → Option Val) : Bool :=
+  P.g.nodes.all fun n =>
+    if P.g.isSwitch n then val n == (swSel P val n).bind val
+    else val n == (if (P.g.preds n).all (fun p => (val p).isSome) then valueOf P n (kwFrom P val n) else none)
+
+/-- Boolean form of the structural part of `SwP`: no one-of, no recurrent destination, decision nodes are ordinary -/
+def swPB (P : Program) : Bool :=
+  P.g.nodes.all (fun n => !P.g.isOneofHead n && (P.g.attr n).startNode.isNone) &&
+  P.g.edges.all (fun e => !e.isSwitch || !P.g.isSwitch e.u)
+
+/-- one round of the dataflow equations (with switches) over the nodes of the graph -/
+def eqRound (P : Program) (val : Node → Option Val) : List (Node × Option Val) :=
+  P.g.nodes.map fun n =>
+    (n, if P.g.isSwitch n then (swSel P val n).bind val
+        else if (P.g.preds n).all (fun p => (val p).isSome) then valueOf P n (kwFrom P val n) else none)
+
+def lookupVal (tbl : List (Node × Option Val)) (n : Node) : Option Val :=
+  match tbl.find? (·.1 == n) with
+  | some (_, v) => v
+  | none => none
+
+/-- the eager solution of an acyclic pipeline: iterate the equations once per node -/
+def eagerVal (P : Program) : Node → Option Val :=
+  lookupVal ((List.range (P.g.nodes.length + 1)).foldl (fun tbl _ => eqRound P (lookupVal tbl)) [])
+
 end MLPE.Eng
